@@ -64,7 +64,7 @@ def run(ctx):
     # pipelines that read back, with dds.load, paths kept earlier in the same evaluation (and, after an edit that deletes the
     # producer, paths committed by earlier evaluations)
     recs += hist.run_histories(ctx, res, 120 if thorough else 30, 6, store_kinds=("memory", "local", "memory"), on_record=on_record,
-                               allow=("call", "ref", "keep", "datafn", "load"))
+                               allow=("call", "ref", "keep", "datafn", "load", "shadow"))
     # functions invoked from several sites (a path possibly kept twice): rejected explicitly, or every value right
     recs += hist.run_histories(ctx, res, 80 if thorough else 24, 3, store_kinds=("memory",), on_record=on_record, allow="multi")
     # directed stratum: literal arguments flowing down chains of keeps through run-time expressions
